@@ -303,12 +303,26 @@ def _dict_literal(v, keys):
     for st in v.stmts():
         if isinstance(st, ast.Assign) and isinstance(st.targets[0], ast.Name) and isinstance(st.value, ast.Dict):
             try:
-                val = ast.literal_eval(st.value)
+                val = ast.literal_eval(_with_named_constants(v, st.value))
             except Exception:
                 continue
             if set(val) == set(keys):
                 return st, st.targets[0].id, val
     return None
+
+
+def _with_named_constants(v, expr):
+    """the expression with module-level named constants (`_CHECK8 = 123456789012345.0`) replaced by their literals"""
+    import copy
+
+    class _S(ast.NodeTransformer):
+        def visit_Name(self, n):
+            t = v.ev._module_constant(v.f.module, n.id) if isinstance(n.ctx, ast.Load) else None
+            if t is not None and t.const() is not None:
+                c = t.const()
+                return ast.copy_location(ast.Constant(value=float(c) if c.denominator != 1 or True else int(c)), n)
+            return n
+    return _S().visit(copy.deepcopy(expr))
 
 
 def _reader_roles(r):
